@@ -208,7 +208,7 @@ func genAlgCase(rt *rapid.T) algCase {
 
 func TestCryptoAlgorithms(t *testing.T) {
 	sec := vk.Sec(t.Name())
-	vk.Check(t, 4000, 60000, func(rt *rapid.T) {
+	vk.Check(t, 10000, 100000, func(rt *rapid.T) {
 		c := genAlgCase(rt)
 		r := runAlg(c)
 		r.class("algname:" + clip(c.Alg, 20))
